@@ -257,13 +257,23 @@ def rule_legal_src(ctx):
     ix = ctx.ix
     it = ctx.body(C.ITER_DEEP)
     sym = ctx.sym(it)
+    # "no result yet" is how a search starts: iter_deep's fall-back to a legal move depends on it
+    ib = ctx.body("search::info::Info::new")
+    v = mir.strip_copies(ctx.sym(ib).local(0))
+    start = {}
+    if v[0] == "agg" and len(v) > 4 and v[4]:
+        start = dict(zip(v[4], v[3]))
+    none = all(n in start and mir.strip_copies(start[n])[0] == "agg" and mir.strip_copies(start[n])[2] == "None" for n in ("best_move", "best_score"))
+    ctx.check(none, "Info::new:no-result-yet", "a search starts with best_move = None and best_score = None", ib.where(0),
+              bad_what="Info::new starts with best_move = `%s`, best_score = `%s`: a search cut short before its first iteration prints that move instead of falling back to a legal one"
+              % (expr_str(start.get("best_move", ("?",)))[:50], expr_str(start.get("best_score", ("?",)))[:50]))
     emits = c10.bestmove_emits(ix, it)
     ok_sources = 0
     seen = {}
     for eb in emits:
         t = it.blocks[eb].term
         e = ("call", "", tuple(sym.operand(a) for a in t["args"]))
-        reads_best = c14.mentions_field(e, "info", "best_move")
+        reads_best = any(c14.mentions_field(x, "info", "best_move") for x in C.depends_on(it, sym, e))
         ctx.check(reads_best, "%s:prints-info.best_move" % C.ITER_DEEP, "the printed move derives from info.best_move", it.where(eb), bad_what="the bestmove line is not built from info.best_move")
         # fallback closure(s): must take the move from get_legal_moves of the root copy
         for x in walk(e):
@@ -454,10 +464,14 @@ def rule_depth_units(ctx):
 RULES = [("one-site", rule_one_site), ("spine-panics", rule_spine_panics), ("tree-index", rule_tree_index), ("go-keywords", rule_go_keywords), ("poll", rule_poll), ("time-budget", rule_time_budget), ("nonblocking", rule_nonblocking),
          ("depth-units", rule_depth_units), ("legal-src", rule_legal_src)]
 # "legal" in "exactly one legal bestmove" rests on the legality filter
-RULES += engine.premise_rules("c01", ["filter", "probe", "square-arith"])
+RULES += engine.movegen_premises()
+# the position searched was loaded by `position`: a valid FEN must load (the parser's alphabet is exactly the valid one,
+# C07), and the counters make_move steps in the tree must be wide enough for any game (C15.counter-widths)
+RULES += engine.premise_rules("c07", ["letters", "side-ep", "castle-letters", "fields"])
+RULES += engine.premise_rules("c15", ["counter-widths"])
 # get_pv runs on the search thread before the bestmove line and asserts that it restored its scratch board: the line is
 # printed only if the walk takes back exactly the moves it played (C14.pv-legal)
-RULES += engine.premise_rules("c14", ["pv-legal"])
+RULES += engine.premise_rules("c14", ["pv-legal", "move-text"])   # and the move is printed the way `position .. moves` reads it back
 
 
 def run(tier):
